@@ -26,7 +26,7 @@ TEETH = {
 }
 PROBES = {
     "C05": [("Probe_AutoWithMode", "L2"), ("Probe_Overrun", "L1"), ("Probe_SelectOverrides", "L2"), ("Probe_SmGo", "L5"),
-            ("Probe_SmReqSurvivesDisable", "L5")],
+            ("Probe_SmReqSurvivesDisable", "L5"), ("Probe_ChooserPicked", "L6")],
     "C06": [("Probe_DirectSwitch", "L1"), ("Probe_Exited", "L1"), ("Probe_StaleDispatch", "L1")],
     "C07": [("Probe_Swallow", "L1"), ("Probe_Crash", "L1")],
     "C10": [("Probe_ResetWritten", "L3")],
@@ -76,7 +76,7 @@ def mc_cfg(layouts, *, dev="{}", maxiter=4, maxchg=3, maxfaults=1, fms="{TRUE, F
 
 def sim_cfg(depth):
     return "\n".join([
-        "SPECIFICATION SimSpec", "CONSTANTS", "  Dev = {}", '  LayoutNames = {"L1", "L2", "L3", "L4", "L5"}',
+        "SPECIFICATION SimSpec", "CONSTANTS", "  Dev = {}", '  LayoutNames = {"L1", "L2", "L3", "L4", "L5", "L6"}',
         "  MaxIter = 1000", "  MaxChg = 10", "  MaxFaults = 2", "  FmsChoices = {TRUE, FALSE}",
         "  AdvChoices = {0, 21000}", "  AllowFmsToggle = TRUE", "  AllowEnd = TRUE",
         "  SimDepth = %d" % depth, "  Weight = 6", "CONSTRAINT Emit", "CONSTRAINT SimStop",
@@ -93,11 +93,13 @@ TIERS = {
         dict(layouts=["L1", "L2", "L3", "L4"], maxiter=4, maxchg=3, maxfaults=1),
         dict(layouts=["L1", "L2"], maxiter=3, maxchg=2, maxfaults=2, toggle="TRUE"),
         dict(layouts=["L5"], maxiter=4, maxchg=3, maxfaults=1),
+        dict(layouts=["L6"], maxiter=4, maxchg=3, maxfaults=1),
     ], mc_workers=8),
     "thorough": dict(n_random=16000, n_sim=4000, sim_depth=120, drivers=16, mc=[
         dict(layouts=["L1", "L2", "L3", "L4"], maxiter=6, maxchg=4, maxfaults=2, adv="{0, 21000}"),
         dict(layouts=["L1", "L2", "L3", "L4"], maxiter=5, maxchg=4, maxfaults=3, toggle="TRUE"),
         dict(layouts=["L5"], maxiter=6, maxchg=4, maxfaults=2),
+        dict(layouts=["L6"], maxiter=6, maxchg=4, maxfaults=2),
     ], mc_workers=16),
 }
 
@@ -162,7 +164,7 @@ def rename(job):
                       for g in sh["feedbacks"]],
         "sm": [cm[c] for c in sh.get("sm", [])],
         "teleAuto": sh["teleAuto"], "modes": [mm[m] for m in sh["modes"]],
-        "defmode": mm.get(sh["defmode"], sh["defmode"]), "period": sh["period"],
+        "defmode": mm.get(sh["defmode"], sh["defmode"]), "period": sh["period"], "rp": sh.get("rp", True),
     }
     evs = []
     for e in job["events"]:
@@ -175,6 +177,8 @@ def rename(job):
             e["eng"] = [cm[c] for c in e.get("eng", [])]
         elif e["e"] == "sel":
             e["s"] = mm.get(e["s"], e["s"])
+        elif e["e"] == "choose":
+            e["m"] = mm.get(e["m"], e["m"])
         evs.append(e)
     return {"id": job["id"], "shape": out, "fms": job["fms"], "events": evs}
 
